@@ -572,6 +572,21 @@ theorem contrib_trie_valid (a : AddCall) (k : Str) (hk : k ∈ (contrib a).trie)
     exact normSuffix_keys_valid p.s k hp
   all_goals simp at hk
 
+theorem kwValid_acValid (k : Str) (h : k.all kwValid = true) : k.all acValid = true := by
+  rw [List.all_eq_true] at h ⊢
+  intro c hc
+  have := h c hc
+  simp only [kwValid, Bool.and_eq_true] at this
+  exact this.1
+
+theorem kwValid_noMarkers (k : Str) (h : k.all kwValid = true) : NoMarkers k := by
+  rw [List.all_eq_true] at h
+  intro c hc
+  have := h c hc
+  simp only [kwValid, isMarker, Bool.and_eq_true, Bool.not_eq_true', Bool.or_eq_false_iff,
+    beq_eq_false_iff_ne] at this
+  exact this.2
+
 theorem contrib_ac_valid (a : AddCall) (k : Str) (hk : k ∈ (contrib a).ac) :
     k.all acValid = true := by
   unfold contrib at hk
@@ -580,7 +595,7 @@ theorem contrib_ac_valid (a : AddCall) (k : Str) (hk : k ∈ (contrib a).ac) :
     obtain ⟨p, _, hp⟩ := List.mem_flatMap.mp hk
     unfold normKeyword at hp
     split at hp
-    · simp at hp; rw [hp]; assumption
+    · simp at hp; rw [hp]; exact kwValid_acValid _ (by assumption)
     · simp at hp
   all_goals simp at hk
 
@@ -754,20 +769,21 @@ theorem callFires_iff (a : AddCall) (dom : Str) (rxHits : List Nat) (hd : NoMark
         · exact ⟨cDot :: p.s ++ [cDollar], ⟨p, hp, by simp [normSuffix, hv, hdot]⟩, (dot_key_iff p.s dom hd).mpr hm⟩
   case keyword =>
     simp only [List.not_mem_nil, false_and, exists_false, false_or, or_false, patValid, patMatches,
-      List.mem_flatMap]
+      List.mem_flatMap, Bool.and_eq_true, Bool.not_eq_true', List.isEmpty_eq_false_iff]
     constructor
     · rintro ⟨k, ⟨p, hp, hkp⟩, hne, hin⟩
       unfold normKeyword at hkp
       split at hkp
       · rename_i hv
         simp only [List.mem_singleton] at hkp; subst hkp
-        exact ⟨p, hp, hv, by rw [← infix_sentinels_eq_kwMeaning p.s dom hd hne]; exact hin⟩
+        refine ⟨p, hp, hv, hne, ?_⟩
+        rw [isInfix_iff] at hin ⊢
+        exact (infix_markers_iff p.s dom (kwValid_noMarkers _ hv) hne).mp hin
       · simp at hkp
-    · rintro ⟨p, hp, hv, hm⟩
-      have hne : p.s ≠ [] := by
-        intro h; rw [h, kwMeaning_nil] at hm; exact absurd hm (by simp)
-      exact ⟨p.s, ⟨p, hp, by simp [normKeyword, hv]⟩, hne,
-        by rw [infix_sentinels_eq_kwMeaning p.s dom hd hne]; exact hm⟩
+    · rintro ⟨p, hp, hv, hne, hin⟩
+      refine ⟨p.s, ⟨p, hp, by simp [normKeyword, hv]⟩, hne, ?_⟩
+      rw [isInfix_iff] at hin ⊢
+      exact (infix_markers_iff p.s dom (kwValid_noMarkers _ hv) hne).mpr hin
   case regex =>
     simp only [List.not_mem_nil, false_and, exists_false, false_or, patValid, patMatches,
       List.mem_map, true_and, List.contains_iff_mem]
